@@ -26,7 +26,7 @@ var mutations = []string{
 	"none", "none",
 	"amount_other_denomination", "amount_other_denomination", "amount_zero", "amount_three", "amount_2^60", "amount_max",
 	"id_other_keyset", "id_unknown", "id_non_hex", "id_empty",
-	"C_nibble_flip", "C_nibble_flip", "C_other_proof", "C_not_on_curve", "C_wrong_length", "C_non_hex", "C_empty", "C_zero_bytes", "C_uppercase",
+	"C_nibble_flip", "C_nibble_flip", "C_negated", "C_negated", "C_other_proof", "C_not_on_curve", "C_wrong_length", "C_non_hex", "C_empty", "C_zero_bytes", "C_uppercase",
 	"secret_edit", "secret_other_proof", "secret_append",
 	"oversize_secret_genuine", "secret_512_genuine",
 	"forged_random_point", "forged_hash_point", "forged_pubkey_as_C",
@@ -90,6 +90,8 @@ func propGenuine(t *rapid.T) {
 			w.RefreshKeysets()
 		}
 		fund(t, w, rapid.Uint64Range(40, 1023).Draw(t, "fund"))
+		// a second funding on the same keyset so that denominations occur twice (same key, different proofs)
+		fund(t, w, rapid.Uint64Range(40, 1023).Draw(t, "fund2"))
 	}
 	if rapid.Bool().Draw(t, "restart") {
 		if err := w.Restart(false, 0); err != nil {
@@ -101,7 +103,8 @@ func propGenuine(t *rapid.T) {
 		unspent := w.M.ProofsIn(world.Unspent)
 		var cands world.MProofs
 		for _, p := range unspent {
-			if p.P.Amount >= 4 {
+			// genuinely signed proofs with an over-long secret (left over from an earlier trial) are unspendable by rule
+			if p.P.Amount >= 4 && len(p.P.Secret) <= 512 {
 				cands = append(cands, p)
 			}
 		}
@@ -110,6 +113,16 @@ func propGenuine(t *rapid.T) {
 		}
 		victim := cands[rapid.IntRange(0, len(cands)-1).Draw(t, "victim")]
 		other := cands[rapid.IntRange(0, len(cands)-1).Draw(t, "other")]
+		if rapid.Bool().Draw(t, "other_same_key") {
+			// prefer a different proof signed with the very same key (same keyset, same denomination)
+			for _, c := range cands {
+				if c.P.Secret != victim.P.Secret && c.P.Id == victim.P.Id && c.P.Amount == victim.P.Amount {
+					other = c
+					rec.Class("companion_same_key_available")
+					break
+				}
+			}
+		}
 		mut := rapid.SampledFrom(mutations).Draw(t, "mutation")
 		p := victim.P
 		switch mut {
@@ -147,6 +160,13 @@ func propGenuine(t *rapid.T) {
 			p.Id = ""
 		case "C_nibble_flip":
 			p.C = flipNibble(p.C, rapid.IntRange(2, 65).Draw(t, "nibble"))
+		case "C_negated":
+			// -C: the same x coordinate with the other parity byte
+			if p.C[1] == '2' {
+				p.C = "03" + p.C[2:]
+			} else {
+				p.C = "02" + p.C[2:]
+			}
 		case "C_other_proof":
 			if other.P.Secret == victim.P.Secret {
 				continue
@@ -202,8 +222,19 @@ func propGenuine(t *rapid.T) {
 		}
 		target := rapid.SampledFrom([]string{"swap", "swap", "melt"}).Draw(t, "target")
 		inputs := cashu.Proofs{p}
-		fee := w.FeeFor(inputs)
 		claimed := p.Amount
+		// optionally present the proof together with a genuine unspent companion, before or after it
+		companion := rapid.SampledFrom([]string{"none", "none", "before", "after"}).Draw(t, "companion")
+		if companion != "none" && other.P.Secret != victim.P.Secret && other.P.Secret != p.Secret && claimed < 1<<40 {
+			if companion == "before" {
+				inputs = cashu.Proofs{other.P, p}
+			} else {
+				inputs = cashu.Proofs{p, other.P}
+			}
+			claimed += other.P.Amount
+			rec.Class("companion=" + companion)
+		}
+		fee := w.FeeFor(inputs)
 		var err error
 		reached := true
 		if target == "swap" {
